@@ -32,7 +32,7 @@ MUTANTS = MUT_C16
 QUICK_CANARIES = True
 CLAIM = {
     "text": "Partial: decides the accounting identities behind the percentage (weights, numerator/denominator discipline, computed/recorded pairing, complete iteration). It does not decide "
-            "that each produced chunk holds exactly the bytes of its piece for every size combination, so equality with the reference piece-by-piece computation is not claimed in full.",
+            "that each produced chunk holds exactly the bytes of its piece for every size combination, so equality with the reference piece-by-piece computation is not claimed in full. Shares with C04: the hash handed out for a v1 piece is the digest of that piece; the v2 stand-in is sized before the piece is booked.",
     "note": "Not decided: byte arithmetic of the piece extractors; independence under arbitrary damage sets. Shares rules with C04.",
     "technique": "CFG dominance / control dependence, linear normal forms of slice bounds, branch-wise comparison of the size definition with min(remaining, piece length)",
     "design_ref": "DESIGN.md section 4, C16",
